@@ -1,17 +1,24 @@
 package main
 
-import "go/ast"
+import (
+	"go/ast"
+	"go/token"
+	"go/types"
+	"strings"
+)
 
 func init() {
 	register(&Property{
 		ID:    "C19",
 		Title: "Building a hashring from any configuration terminates",
 		Explain: "E8 loop progress over every function reachable (statically resolved calls, interface calls resolved to all loaded implementations) from receive.NewMultiHashring and from the lazily built per-tenant shuffle-shard ring (getTenantShard): " +
-			"each `for` loop is either a counted loop (one variable stepped by a constant towards a bound that the body does not modify) or, by a must-progress dataflow over go/cfg (reset at body entry, join = AND), every back edge is reached only after an assignment / insert / delete on a variable the loop condition reads; unconditional loops need an exit; range loops over slices/maps/integers terminate by construction; the reachable call graph has no recursion.",
+			"each `for` loop is either a counted loop (one variable stepped by a constant towards a bound that the body does not modify) or, by a must-progress dataflow over go/cfg (reset at body entry, join = AND), every back edge is reached only after an assignment / insert / delete on a variable the loop condition reads; unconditional loops need an exit; range loops over slices/maps/integers terminate by construction; the reachable call graph has no recursion. " +
+			"Usable or error (necessary structure): newKetamaHashring returns an error when there are fewer endpoints than the replication factor; calculateSectionReplicas gives up on a section only after a search with the zone constraint switched off; and in nextSectionReplica every path that passes over a section either found its endpoint among the chosen replicas or runs with the zone constraint on (structured path enumeration) — so with enough endpoints the relaxed full-lap search (C20) always finds one and no section is left with fewer replicas than GetN indexes.",
 		Assume: []string{"sort.Sort / sort.Search / rand and map operations of the standard library terminate", "a strictly changing condition variable is taken as progress: the rule is a necessary structural condition (no back edge that leaves the loop state unchanged), not a full ranking-function proof"},
 		Run: func(c *Ctx) {
 			c.Rule("loop-progress", "every non-range loop is counted or changes its condition's variables on every cycle", 2)
 			c.Rule("no-recursion", "no recursion in ring construction", 1)
+			c.Rule("ring-usable-or-error", "too few endpoints is an error; otherwise every section gets its replicas: the relaxed search skips used endpoints only and is tried before giving up", 3)
 			p := c.Load("pkg/receive")
 			if p == nil {
 				return
@@ -57,6 +64,171 @@ func init() {
 			}
 			c.OK("no-recursion", "pkg/receive.NewMultiHashring#reachable-set", "", "no self-recursive function among the reachable set")
 			c.Stats["loops_analysed"] += n
+			runC19Usable(c, p)
 		},
 	})
+}
+
+func runC19Usable(c *Ctx, p *Prog) {
+	const rel, rule = "pkg/receive", "ring-usable-or-error"
+	// (1) too few endpoints → error
+	if fn := p.Func(rel, "", "newKetamaHashring"); fn == nil {
+		c.Incomplete(rule, rel+".newKetamaHashring", "", "function not found")
+	} else {
+		info := fn.Info()
+		ok := false
+		for _, st := range fn.Body().List {
+			ifs, isIf := st.(*ast.IfStmt)
+			if !isIf || len(ifs.Body.List) == 0 {
+				continue
+			}
+			b := shapeBind{}
+			if !matchShape("len(§eps)<int(§rf)", canon(ifs.Cond), b) && !matchShape("uint64(len(§eps))<§rf", canon(ifs.Cond), b) && !matchShape("int(§rf)>len(§eps)", canon(ifs.Cond), b) {
+				continue
+			}
+			if ret, isRet := ifs.Body.List[len(ifs.Body.List)-1].(*ast.ReturnStmt); isRet && len(ret.Results) == 2 && !isNil(info, ret.Results[1]) {
+				ok = true
+			}
+		}
+		c.Check(ok, rule, rel+".newKetamaHashring#too-few-endpoints", p.Pos(fn.Decl.Pos()), "too-few-endpoints-accepted",
+			"fewer endpoints than the replication factor must be rejected with an error before the ring is built")
+	}
+	// (2) give up only after the relaxed search
+	if fn := p.Func(rel, "", "calculateSectionReplicas"); fn == nil {
+		c.Incomplete(rule, rel+".calculateSectionReplicas", "", "function not found")
+	} else {
+		info := fn.Info()
+		isRelaxed := func(e ast.Expr) bool {
+			call, ok := unparen(e).(*ast.CallExpr)
+			if !ok || len(call.Args) == 0 {
+				return false
+			}
+			f := calleeOf(info, call)
+			if f == nil || f.Name() != "nextSectionReplica" {
+				return false
+			}
+			tv, ok := info.Types[call.Args[len(call.Args)-1]]
+			return ok && tv.Value != nil && tv.Value.String() == "false"
+		}
+		assignsRelaxed := func(st ast.Stmt, v string) bool {
+			as, ok := st.(*ast.AssignStmt)
+			return ok && len(as.Lhs) == 1 && len(as.Rhs) == 1 && canon(as.Lhs[0]) == v && isRelaxed(as.Rhs[0])
+		}
+		found, bad := 0, ""
+		ast.Inspect(fn.Body(), func(nd ast.Node) bool {
+			blk, ok := nd.(*ast.BlockStmt)
+			if !ok {
+				return true
+			}
+			for k, st := range blk.List {
+				ifs, ok := st.(*ast.IfStmt)
+				if !ok || len(ifs.Body.List) == 0 || ifs.Init != nil {
+					continue
+				}
+				if br, isBreak := ifs.Body.List[len(ifs.Body.List)-1].(*ast.BranchStmt); !isBreak || br.Tok != token.BREAK {
+					continue
+				}
+				b := shapeBind{}
+				if !matchShape("§next<0", canon(ifs.Cond), b) {
+					continue
+				}
+				found++
+				v := b["§next"]
+				okPrev := false
+				if k > 0 {
+					switch prev := blk.List[k-1].(type) {
+					case *ast.AssignStmt:
+						okPrev = assignsRelaxed(prev, v)
+					case *ast.IfStmt:
+						// `if next < 0 { next = relaxed search }`: whenever the give-up test still sees next < 0, the relaxed search ran last
+						okPrev = prev.Else == nil && canon(prev.Cond) == canon(ifs.Cond) && len(prev.Body.List) > 0 && assignsRelaxed(prev.Body.List[len(prev.Body.List)-1], v)
+					}
+				}
+				if !okPrev {
+					bad = "the replica search of a section is abandoned at " + p.Pos(ifs.Pos()) + " without the search without the zone constraint having been the last one tried"
+				}
+			}
+			return true
+		})
+		_ = info
+		if found == 0 {
+			// no way to give up at all is fine as long as the loop terminates (loop-progress)
+			c.OK(rule, rel+".calculateSectionReplicas#relaxed-before-giving-up", p.Pos(fn.Decl.Pos()), "the replica loop is never abandoned")
+		} else {
+			c.Check(bad == "", rule, rel+".calculateSectionReplicas#relaxed-before-giving-up", p.Pos(fn.Decl.Pos()), "gives-up-without-relaxed-search", bad)
+		}
+	}
+	// (3) the relaxed search passes over used endpoints only
+	if fn := p.Func(rel, "", "nextSectionReplica"); fn == nil {
+		c.Incomplete(rule, rel+".nextSectionReplica", "", "function not found")
+	} else {
+		info := fn.Info()
+		// the zone-constraint switch: the bool parameter
+		var sw types.Object
+		for _, f := range fn.Decl.Type.Params.List {
+			for _, nm := range f.Names {
+				if o := info.Defs[nm]; o != nil && isBoolType(o.Type()) {
+					sw = o
+				}
+			}
+		}
+		var loop *ast.ForStmt
+		ast.Inspect(fn.Body(), func(nd ast.Node) bool {
+			if f, ok := nd.(*ast.ForStmt); ok && loop == nil {
+				loop = f
+			}
+			return true
+		})
+		switch {
+		case sw == nil || loop == nil:
+			c.Incomplete(rule, rel+".nextSectionReplica#relaxed-skips-used-only", p.Pos(fn.Decl.Pos()), "walk loop or zone-constraint parameter not found")
+		default:
+			paths, err := enumPaths(loop.Body.List)
+			var probs []string
+			if err != nil {
+				probs = append(probs, err.Error())
+			}
+			for _, pth := range paths {
+				if pth.End != "next" {
+					continue
+				}
+				used, strict := false, false
+				for _, cnd := range pth.Conds {
+					if id, ok := unparen(cnd.Atom).(*ast.Ident); ok && cnd.Pol {
+						o := objOf(info, id)
+						if o == sw {
+							strict = true
+						}
+						ast.Inspect(loop.Body, func(x ast.Node) bool {
+							if as, ok := x.(*ast.AssignStmt); ok && len(as.Lhs) == 2 && len(as.Rhs) == 1 && objOf(info, as.Lhs[1]) == o {
+								if ix, ok := unparen(as.Rhs[0]).(*ast.IndexExpr); ok {
+									if _, isMap := info.TypeOf(ix.X).Underlying().(*types.Map); isMap && strings.HasSuffix(canon(ix.Index), ".endpointIndex") {
+										used = true
+									}
+								}
+							}
+							return true
+						})
+					}
+				}
+				if used || strict {
+					continue
+				}
+				var took []string
+				for _, cnd := range pth.Conds {
+					t := exprString(cnd.Atom)
+					if !cnd.Pol {
+						t = "!(" + t + ")"
+					}
+					took = append(took, t)
+				}
+				for _, o := range pth.Opaque {
+					took = append(took, "¬/∨ "+exprString(o))
+				}
+				probs = append(probs, "a section is passed over on the path ["+strings.Join(took, " ∧ ")+"], which neither found its endpoint among the chosen replicas nor requires the zone constraint ("+sw.Name()+") to be on")
+			}
+			c.Check(len(probs) == 0, rule, rel+".nextSectionReplica#relaxed-skips-used-only", p.Pos(loop.Pos()), "relaxed-search-still-constrained",
+				strings.Join(probs, "; ")+": with unbalanced zones the relaxed search finds nothing, sections keep fewer replicas than the replication factor and GetN indexes past them")
+		}
+	}
 }
